@@ -59,6 +59,9 @@ SCRIPTS['n'] = ('(set-logic QF_LIA)(declare-const |x| Int)'
 MUTSETS = {
     'consts': ['Constants'],
     'late': ['SimplifySymbolNames', 'ReplaceByVariable'],
+    # a late (last-pass only) mutator together with main ones: successes in
+    # the last pass, after which main-mutator candidates become acceptable
+    'latemix': ['SimplifySymbolNames', 'SimplifyQuotedSymbols', 'EraseNode'],
     'arith': ['ArithmeticSimplifyConstant'],
     'fresh': ['Constants', 'IntroduceFreshVariable'],
     'bvbool': ['BVDoubleNegation', 'BVElimBVComp', 'BVTransformToBool',
